@@ -225,11 +225,25 @@ func (vc *VC) applyContract(st *State, call *ast.CallExpr, c *Contract, callee *
 		}
 	}
 	oldSt := st.clone()
+	// closures handed to the callee are verified as callbacks (before the callee's effects are applied,
+	// under a havocked heap: the callee may run them at any point)
+	for _, cb := range c.Callbacks {
+		if fv := names[cb.Param]; fv != nil && fv.Fn != nil && fv.Fn.Lit != nil {
+			vc.checkCallback(st, fv.Fn, cb, pi, c)
+		}
+	}
 	// frame
 	if c.HasMod {
 		targets, whole, _ := vc.resolveMods(pre, c)
 		if whole {
 			vc.havocAllHeap(st)
+			var ghost []ModTarget
+			for _, t := range targets {
+				if strings.HasPrefix(t.comp, "ghost:") {
+					ghost = append(ghost, t)
+				}
+			}
+			vc.havocTargets(st, ghost)
 		} else {
 			vc.havocAlloc(st)
 			vc.havocTargets(st, targets)
@@ -650,4 +664,43 @@ func (vc *VC) finishObligations() {
 		o.Distinct = distinct
 		o.Inputs = vc.inputs
 	}
+}
+
+// checkCallback verifies the body of a closure literal passed as a callback: heap arbitrary, parameters arbitrary
+// values satisfying the declared condition; the resulting states are discarded (only obligations are kept).
+func (vc *VC) checkCallback(st *State, fn *FuncVal, cb CallbackSpec, pi *PkgInfo, c *Contract) {
+	if vc.specMode > 0 {
+		return
+	}
+	work := st.clone()
+	if !cb.Immediate {
+		vc.havocAllHeap(work)
+	}
+	if fn.Env != nil {
+		for o, v := range fn.Env.env {
+			if _, ok := work.env[o]; !ok {
+				work.env[o] = v
+			}
+		}
+	}
+	info := fn.Pkg.P.TypesInfo
+	sig, _ := info.TypeOf(fn.Lit).(*types.Signature)
+	if sig == nil {
+		return
+	}
+	var args []*Value
+	names := map[string]*Value{}
+	for i := 0; i < sig.Params().Len(); i++ {
+		a := vc.freshValue(work, fmt.Sprintf("cb_arg%d", i+1), sig.Params().At(i).Type())
+		args = append(args, a)
+		names[fmt.Sprintf("_%d", i+1)] = a
+	}
+	if cb.Cond != nil {
+		sc := &SpecScope{cur: work, names: names, pkg: pi, predPkg: c.Pkg, where: "callback " + cb.Param}
+		work.assume(vc.evalSpecBoolIn(sc, cb.Cond))
+	}
+	savedGuards := vc.guards
+	vc.guards = nil
+	vc.inlineCall(work, fn.Lit, fn.Pkg, fn.Lit.Type, fn.Lit.Body, nil, sig, nil, args, nil)
+	vc.guards = savedGuards
 }
